@@ -116,6 +116,7 @@ EvalE(x, h, row, grp, ctx) ==
                          IN IF x.neg THEN Not3(v) ELSE v)
     [] x.e = "exists" -> (LET v == B(AnyRel(EvalQ(x.q, ctx)).rows # <<>>) IN IF x.neg THEN 1 - v ELSE v)
     [] x.e = "scalar" -> (LET r == AnyRel(EvalQ(x.q, ctx)) IN IF r.rows = <<>> THEN NULL ELSE r.rows[1][1])
+    [] x.e = "cast" -> EvalE(x.a, h, row, grp, ctx)          \* CAST(.. AS int) on integers
     [] x.e = "agg" -> Agg(x, h, IF grp.on THEN grp.rows ELSE <<row>>, ctx)
     [] OTHER -> ERR
 
@@ -137,7 +138,7 @@ RECURSIVE HasAgg(_)
 HasAgg(x) ==
   CASE x.e = "agg" -> TRUE
     [] x.e \in {"bin"} -> HasAgg(x.a) \/ HasAgg(x.b)
-    [] x.e \in {"un", "isnull"} -> HasAgg(x.a)
+    [] x.e \in {"un", "isnull", "cast"} -> HasAgg(x.a)
     [] x.e = "between" -> HasAgg(x.a) \/ HasAgg(x.lo) \/ HasAgg(x.hi)
     [] OTHER -> FALSE
 
